@@ -8,7 +8,7 @@ from pktgen import udp_frame, fragments
 class Prop(PropBase):
     pid = 'C16'
     kernels = []
-    vo_targets = ['Props/Properties_C16.vo', 'Proofs/InputSafe.vo']
+    vo_targets = ['Props/Properties_C16.vo', 'Proofs/InputSafe.vo', 'Proofs/JumboIff.vo']
     prop_files = ['Props/Properties_C16.v']
     rule = ('RSM1_JUMBO driver reading pcap files through InputPcapJumbo/Jumbo (real threads, ASan): trains of 2..45 fragments (sizes multiples of 8, totals up to 65535), '
             'unfragmented datagrams, IP identification 0 and repeated ids, IP headers with options, lost / duplicated / reordered fragments, interleaved trains of two ids, '
